@@ -47,7 +47,8 @@ def execute(case):
             tr = case["tranks"]
             t = Tensor(rank_ids=tr, shape=[case["shape"]] * len(tr), name="A")
             fm = Format(t, {r: {"pbits": 32, "cbits": 32} for r in tr})
-            line_sz = case["epl"] * 32
+            # a line holds epl elements of 32 bits, and possibly some slack bits (a line size that is no multiple of the element footprint)
+            line_sz = case["epl"] * 32 + case.get("slack", 0)
             brank = order[-1]
             fns = {("A", brank, "payload", "read"): rfn}
             if has_w:
@@ -57,7 +58,7 @@ def execute(case):
                 binding["evict-on"] = case["ev"]
             before = sorted(os.listdir(d))
             res = []
-            for cap in case["caps"]:
+            for cap in [c_ * line_sz // (case["epl"] * 32) for c_ in case["caps"]]:          # capacities keep their size in lines
                 try:
                     with contextlib.redirect_stdout(io.StringIO()):
                         if case["kind"] == "buffet":
